@@ -52,8 +52,17 @@ FOR_SRC = {
     # the loop falls through
     "N3": ["proc_loop(s, v)"],
     "N4": ["self.o <<= val_loop()"],
+    # repeated match patterns / select keys denoting the same value: the first one applies
+    "MD1": ["match self.a:", "    case 0:", "        s <<= 1", "    case 1:", "        s <<= 2", "    case 0:", "        s <<= 3", "    case _:", "        pass"],
+    "MD2": ["self.o <<= cohdl.select_with(self.a, {0: Unsigned[2](1), 1: Unsigned[2](2), Unsigned[2](0): Unsigned[2](3)}, default=Unsigned[2](0))"],
+    # signals constructed inside the body: without delayed_init the initial value is visible immediately (like a variable),
+    # with delayed_init=True it is a normal signal assignment (reads in the same activation see the value of the last one)
+    "LS1": ["loc1 = Signal[Unsigned[2]](self.a, name='loc1')", "self.o <<= loc1"],
+    "LS2": ["loc2 = Signal[Unsigned[2]](self.a, name='loc2', delayed_init=True)", "self.o <<= loc2"],
+    "LS3": ["loc3 = Signal[Unsigned[2]](self.a, name='loc3', delayed_init=False)", "self.o <<= loc3"],
+    "LS4": ["loc4 = Signal[Unsigned[2]](self.a if self.c else cohdl.Null, name='loc4')", "self.o <<= loc4"],
 }
-FRAGS = ("F1", "F2", "F3", "F4", "R1", "R2", "B1", "B2", "N1", "N2", "N3", "N4")
+FRAGS = ("F1", "F2", "F3", "F4", "R1", "R2", "B1", "B2", "N1", "N2", "N3", "N4", "MD1", "MD2", "LS1", "LS2", "LS3", "LS4")
 
 M2 = 3
 
@@ -135,19 +144,22 @@ class Ref:
         self.pn = 0
         self.vi = 0
         self.vb = 0
+        self.loc = None  # signal constructed inside the body without default: undefined until first assigned, kept by reset
 
     def snapshot(self):
         st = self.st
-        return (st["s"], st["mem"], st["v"], st["o"], self.p, self.ond, self.onr, self.orst, self.onr2, self.pn, self.onrr, self.vi, self.vb)
+        return (st["s"], st["mem"], st["v"], st["o"], self.p, self.ond, self.onr, self.orst, self.onr2, self.pn, self.onrr, self.vi, self.vb, self.loc)
 
     def restore(self, sn):
         self.st = {"s": sn[0], "mem": sn[1], "v": sn[2], "o": sn[3]}
-        self.p, self.ond, self.onr, self.orst, self.onr2, self.pn, self.onrr, self.vi, self.vb = sn[4:]
+        self.p, self.ond, self.onr, self.orst, self.onr2, self.pn, self.onrr, self.vi, self.vb, self.loc = sn[4:]
 
     def do_reset(self):
         pn = self.pn  # noreset: keeps its value while reset is active
+        loc = self.loc  # no default: not reset
         self.reset_state()
         self.pn = pn
+        self.loc = loc
         self.orst = 3 if self.on_reset else 0
 
     def regs(self):
@@ -277,6 +289,19 @@ class Ref:
                         sbits.clear()
                 elif k == "N4":
                     nxt["o"] = 1 if inp[2] else 2 if inp[1] else inp[0]
+                elif k == "MD1":
+                    if inp[0] in (0, 1):
+                        nxt["s"] = inp[0] + 1
+                        sbits.clear()
+                elif k == "MD2":
+                    nxt["o"] = {0: 1, 1: 2}.get(inp[0], 0)
+                elif k in ("LS1", "LS3"):
+                    nxt["o"] = inp[0]
+                elif k == "LS2":
+                    nxt["o"] = self.loc
+                    self.loc_next = inp[0]
+                elif k == "LS4":
+                    nxt["o"] = inp[0] if inp[2] else 0
                 elif k == "F4":
                     a = inp[0]
                     st["v"] = (st["v"] + bin(a).count("1")) & M2
@@ -287,7 +312,9 @@ class Ref:
 
         # v is a process variable: mutate a copy of the dict but keep signal reads on old values
         st = dict(self.st)
+        self.loc_next = self.loc
         run(self.prog)
+        self.loc = self.loc_next
         new = dict(self.st)
         new["v"] = st["v"]
         if "s" in nxt:
